@@ -43,7 +43,13 @@ TIMEOUT = {'quick': 300, 'thorough': 3000}
 
 FATAL_R = ['H', 'C', 'M', 'A', 'E', 'X']            # usable in both modes
 MODE_U_ONLY = ['S', 'R', 'K', 'T']
-HARMLESS = ['unknown', 'noparam', 'ainit_fail', 'restore_fail', 'storage_read_fail']
+HARMLESS = ['unknown', 'noparam', 'ainit_fail', 'restore_fail', 'storage_read_fail',
+            'schema_reject']
+
+
+class SchemaInvalid(Exception):
+    """A validation library's own error class (derived directly from Exception)."""
+
 
 
 class SrcError(Exception):
@@ -100,6 +106,39 @@ def run_case(case, ctx):
                         raise exc
                 objs[i] = MP(f"m{i}", x_hist=hist, x_script={'init_regular': 'set'}, x_emit={},
                              stop_timeout=1)
+            elif kind == 'MC':
+                # a worker task that its own block cancels (a 'restart' event) and that fails
+                # with an ordinary exception while it handles the cancellation
+                class Worker(edzed.AddonAsync, edzed.SBlock):
+                    def init_regular(self):
+                        self.set_output(0)
+
+                    def start(self):
+                        super().start()
+                        self.x_task = self._create_monitored_task(self._worker())
+
+                    async def _worker(self, i=i):
+                        try:
+                            await asyncio.sleep(10 ** 6)
+                        except asyncio.CancelledError:
+                            if self.x_restart:
+                                exc = SrcError(f"MC{i}")
+                                excs[i] = exc
+                                fired.append(('M', i))
+                                raise exc
+                            raise
+
+                    def _event_restart(self, **_data):
+                        self.x_restart = True
+                        self.x_task.cancel()
+
+                    async def stop_async(self):
+                        self.x_task.cancel()
+                        try:
+                            await self.x_task
+                        except BaseException:   # pylint: disable=broad-except
+                            pass
+                objs[i] = Worker(f"w{i}", x_restart=False, stop_timeout=1)
             elif kind == 'E':
                 objs[i] = edzed.Input(f"e{i}", initdef=0, on_output=edzed.Event(
                     '_ctrl', 'abort', efilter=edzed.not_from_undef))
@@ -186,6 +225,14 @@ def run_case(case, ctx):
         if case.get('harmless') == 'restore_fail':
             probes.make_probe('rf', {'persist', 'initdef'}, hist, {'restore': 'raise'},
                               persistent=True, initdef=1)
+        if case.get('harmless') == 'schema_reject':
+            # an Input whose schema refuses values with an exception class of its own; a stale
+            # saved value is refused at the restore, a wrong external value at t=0.5
+            def schema(value):
+                if not isinstance(value, int):
+                    raise SchemaInvalid(f"not an integer: {value!r}")
+                return value
+            objs['sch'] = edzed.Input('sch', initdef=1, schema=schema, persistent=True)
         if case.get('harmless') == 'storage_read_fail':
             # the storage back-end fails to read the saved state of this block
             probes.make_probe('rf', {'persist', 'initdef'}, hist, {}, persistent=True, initdef=1)
@@ -205,6 +252,8 @@ def run_case(case, ctx):
         try:
             if kind == 'H':
                 edzed.ExtEvent(objs[i], 'boom').send()
+            elif kind == 'MC':
+                edzed.ExtEvent(objs[i], 'restart').send()
             elif kind in ('C', 'Z', 'ZC'):
                 edzed.ExtEvent(objs[i]).send(1)
             elif kind in ('E', 'EC'):
@@ -294,7 +343,7 @@ def run_case(case, ctx):
         def schedule(simtask_getter, runtask_getter):
             for i, (kind, t) in enumerate(actions):
                 when = t0 + t
-                if kind in ('H', 'C', 'E', 'A', 'Z', 'ZC', 'EC', 'HC', 'HN'):
+                if kind in ('H', 'C', 'E', 'A', 'Z', 'ZC', 'EC', 'HC', 'HN', 'MC'):
                     loop.call_at(when, fire, i, kind, objs, circuit)
                 elif kind == 'X':
                     async def do_shutdown(i=i):
@@ -336,11 +385,13 @@ def run_case(case, ctx):
                 loop.call_at(t0 + min(t for _k, t in actions) + 0.25, probe_ready)
             # harmless faults at t=0.5
             h = case.get('harmless')
-            if h in ('unknown', 'noparam'):
+            if h in ('unknown', 'noparam', 'schema_reject'):
                 def harmless():
                     try:
                         if h == 'unknown':
                             edzed.ExtEvent(objs['pinger'], 'bogus').send()
+                        elif h == 'schema_reject':
+                            res['schema_reject_ret'] = edzed.ExtEvent(objs['sch']).send('text')
                         else:
                             edzed.ExtEvent(objs['cnt'], 'put').send()      # missing 'value'
                     except Exception as err:
@@ -679,7 +730,7 @@ def gen(ctx):
     cases.append({'mode': 'U', 'actions': [['S', 1], ['SC', 0]]})
     cases.append({'mode': 'U', 'actions': [['S', 1], ['SC', 0], ['SC', 0]]})
     cases.append({'mode': 'U', 'actions': [['S', 1], ['SC', 0], ['R', 2]]})
-    for inner in ('EC', 'HC', 'HN'):
+    for inner in ('EC', 'HC', 'HN', 'MC'):
         cases.append({'mode': 'R', 'actions': [[inner, 1]]})
         cases.append({'mode': 'U', 'actions': [[inner, 1]]})
         for a in kindsR:
@@ -722,7 +773,7 @@ def gen(ctx):
     # wake-up latency injected into the virtual loop, optional slow initialisation
     rng = ctx.rng('random')
     nrand = 160 if ctx.tier == 'quick' else 400000
-    inner = ['Z', 'ZC', 'EC', 'HC', 'HN']
+    inner = ['Z', 'ZC', 'EC', 'HC', 'HN', 'MC']
     for i in range(nrand):
         mode = rng.choice(['R', 'R', 'U', 'U', 'N'])
         pool = FATAL_R + inner + (['S', 'R', 'K', 'T'] if mode == 'U' else
